@@ -558,6 +558,10 @@ func (srv *server) unregisterClient(client *client) {
 		if forceRemove != 1 {
 			if client.version == packets.Version5 && client.disconnect != nil {
 				sess.ExpiryInterval = convertUint32(client.disconnect.Properties.SessionExpiryInterval, sess.ExpiryInterval)
+				// like the interval requested at CONNECT, never more than the configured session expiry
+				if max := uint32(srv.config.MQTT.SessionExpiry.Seconds()); sess.ExpiryInterval > max {
+					sess.ExpiryInterval = max
+				}
 			}
 			if sess.ExpiryInterval != 0 {
 				storeSession = true
